@@ -21,6 +21,7 @@ import (
 	"github.com/go-openapi/runtime/middleware/untyped"
 	"github.com/go-openapi/spec"
 	"github.com/go-openapi/strfmt"
+	"github.com/go-openapi/swag"
 )
 
 // C01 — spec-driven dispatch (middleware/router.go over denco). Case kinds:
@@ -117,6 +118,27 @@ func (c01) Enumerate(tier string) []any {
 	for _, s := range []string{"", "%", "%2", "%2F", "%2f", "%zz", "a%25b", "%25%32%35", "+", "a+b%20c", "%4", "%G0", "%0G", "%C3%A9", "\xc3\xa9", "%00", "%7B%7D", "a%", "%%"} {
 		out = append(out, c01In{Kind: "unesc", S: Bs(s)})
 	}
+	// placeholder names that are prefixes / suffixes / infixes of one another, in both orders
+	mk := func(base, via string, ops []string, targets []string) c01In {
+		in := c01In{Kind: "spec", Base: Bs(base), Via: via}
+		for _, o := range ops {
+			f := strings.SplitN(o, " ", 2)
+			in.Ops = append(in.Ops, c01Op{M: Bs(f[0]), T: Bs(f[1])})
+		}
+		for _, t := range targets {
+			f := strings.SplitN(t, " ", 2)
+			in.Reqs = append(in.Reqs, c01Req{M: Bs(f[0]), Target: Bs(f[1]), Origin: "relnames"})
+		}
+		return in
+	}
+	out = append(out, mk("/api", "api",
+		[]string{"get /items/{itemId}/related/{item}", "get /items/{itemId}", "get /u/{a}/{ab}", "put /u/{ab}/x/{a}", "get /v/{idx}/{id2}/{id}",
+			"post /w/{xid}/{id}", "delete /w/{itemId}/{tem}", "get /id/{id}/idx/{idx}", "patch /n/{filename}/{name}/{am}"},
+		[]string{"GET /api/items/42/related/shoe", "GET /api/items/42", "GET /api/u/1/2", "PUT /api/u/1/x/2", "GET /api/u/1/x/2", "GET /api/v/7/8/9",
+			"POST /api/w/p/q", "DELETE /api/w/p/q", "get /api/id/1/idx/2", "PATCH /api/n/f.txt/n%2Fm/am", "GET /api/items/a%2Fb/related/%25", "GET /api//items/./42/related/x/../shoe/"}))
+	out = append(out, mk("", "routes",
+		[]string{"get /c/{itemId}.{b}/y/{item}", "put /c/{ab}/{a}-{b}", "get /d/{idx}/{id}.json", "post /e/{a}.{ab}", "post /f/{ab}--{a}/{abc}", "delete /g/{id}/{d}_{idx}"},
+		[]string{"GET /c/42.x/y/shoe", "PUT /c/1/2-3", "GET /d/7/8.json", "POST /e/1.2", "POST /f/1--2/3", "DELETE /g/1/2_3", "POST /c/42.x/y/shoe", "GET /c//42.x/./y/shoe"}))
 	return out
 }
 
@@ -125,7 +147,14 @@ func (c01) Enumerate(tier string) []any {
 var c01Bases = []string{"", "/", "/api", "/api/", "/a/b"}
 var c01Verbs = []string{"get", "put", "post", "delete", "options", "head", "patch"}
 var c01Lits = []string{"a", "b", "ab", "abc", "b.c", "a-b", "x1", "v1", "items", "a=b", "g", "files", "z~", "a;b", "a,b", "$x", "a@b", "A", "..."}
-var c01Names = []string{"id", "x", "y", "name", "p1", "ver", "a", "b", "item-id", "Key"}
+var c01Names = []string{"id", "x", "y", "name", "p1", "ver", "a", "b", "item-id", "Key", "idx", "ab", "item", "itemId"}
+
+// placeholder names one of which is a substring of the other (short, long): prefixes, suffixes, infixes.
+// A router that locates a placeholder in the template by anything less than the full {name} confuses them.
+var c01RelPairs = [][2]string{{"id", "idx"}, {"id", "id2"}, {"item", "itemId"}, {"a", "ab"}, {"ab", "abc"}, {"a", "abc"}, // prefix
+	{"Id", "itemId"}, {"d", "id"}, {"b", "ab"}, {"id", "xid"}, {"name", "filename"}, // suffix
+	{"tem", "itemId"}, {"d", "idx"}, {"b", "abc"}, {"x", "p1x2"}, {"am", "names"}} // infix
+var c01RelSeps = []string{".", "-", "--", "_", "::", "@", ".v"}
 var c01CompSegs = []string{"{a}.{b}", "{name}--{ver}", "{a}.json", "{x}_{y}_{z}", "{a}-{b}", "{id}.tar.gz", "{a}::{b}", "{p1}@{id}"}
 var c01Values = []string{"x", "abc", "b", "a", "ab", "items", "1", "%2F", "a%2Fb", "%2f", "%25", "%2525", "a%25", ":", ":id", "a:b", "*", "*w", "a*", "#", "%23", "a%23b", ";", "a;b=c", "=", "a=b", "=:",
 	".", "..", "...", "%2E%2E", "%2e", ".a", "\xc3\xa9", "%C3%A9", "%20", "a%20b", "a+b", "~", "$", ",", "%00", "%7Bx%7D", "{x}", "{id}", "x.y", "x.y.z", ".y", "x.", "abc--1", "abc-1", "--", "a.json", ".json", "a.jsonl",
@@ -134,6 +163,22 @@ var c01BadCompSegs = []string{"{a}x{b", "{a}x}b{c}", "{a}}{b}", "{a}}", "{x}-{y"
 var c01PlaceholderRe = regexp.MustCompile(`\{([^{}/]+)\}`)
 
 func c01Pick(r *rand.Rand, xs []string) string { return xs[r.Intn(len(xs))] }
+
+// analysis.ParamsFor keys the parameters of an operation by swag.ToGoName(name): two placeholders such as
+// {itemId} and {item-id} (or {id} and {Id}) are one entry there and the binder drops one of them. That is
+// outside the router; the generator keeps such names out of one template.
+func c01NameClash(names map[string]bool, nm string) bool {
+	if names[nm] {
+		return true
+	}
+	g := swag.ToGoName(nm)
+	for k := range names {
+		if swag.ToGoName(k) == g {
+			return true
+		}
+	}
+	return false
+}
 
 // denco shape of a full path: placeholders (whole or composite segments) as ":"
 func c01Shape(full string) string {
@@ -183,7 +228,7 @@ func c01GenTemplates(r *rand.Rand, composite bool) []string {
 				}
 				ok := true
 				for _, m := range c01PlaceholderRe.FindAllStringSubmatch(cs, -1) {
-					if names[m[1]] {
+					if c01NameClash(names, m[1]) {
 						ok = false
 					}
 				}
@@ -198,7 +243,7 @@ func c01GenTemplates(r *rand.Rand, composite bool) []string {
 				compLeft--
 			case k < 4 && nph < 3:
 				nm := c01Pick(r, c01Names)
-				if names[nm] {
+				if c01NameClash(names, nm) {
 					continue
 				}
 				names[nm] = true
@@ -260,6 +305,14 @@ func c01Instantiate(r *rand.Rand, full string) string {
 	return strings.Join(segs, "/")
 }
 
+// every placeholder, whole-segment or inside a composite segment, gets a non-empty text without
+// separator bytes (letters and digits, some percent-encoded)
+func c01InstantiateStrict(r *rand.Rand, full string) string {
+	return c01PlaceholderRe.ReplaceAllStringFunc(full, func(string) string {
+		return c01Pick(r, []string{"x", "abc", "1", "42", "shoe", "v", "a%2Fb", "%25", "%C3%A9", "a%20b", "id", "item", "ab", "d"})
+	})
+}
+
 func c01MutatePath(r *rand.Rand, p string) (string, string) {
 	slashes := []int{}
 	for i := 0; i < len(p); i++ {
@@ -307,12 +360,115 @@ func c01MutatePath(r *rand.Rand, p string) (string, string) {
 }
 
 func c01GenSpec(r *rand.Rand) c01In {
+	composite := r.Intn(8) == 0
+	return c01SpecFrom(r, c01GenTemplates(r, composite), false)
+}
+
+// templates whose placeholder names are substrings of one another (c01RelPairs), in both orders, in
+// whole-segment and in composite positions, next to literal segments spelled like the names
+func c01GenRelTemplates(r *rand.Rand, composite bool) []string {
+	n := 2 + r.Intn(4)
+	var out []string
+	seen := map[string]bool{}
+	lit := func() string {
+		if r.Intn(3) == 0 {
+			pr := c01RelPairs[r.Intn(len(c01RelPairs))]
+			return pr[r.Intn(2)] // a literal segment spelled like a placeholder name
+		}
+		return c01Pick(r, c01Lits)
+	}
+	for tries := 0; len(out) < n && tries < 100; tries++ {
+		pr := c01RelPairs[r.Intn(len(c01RelPairs))]
+		names := []string{pr[0], pr[1]}
+		if r.Intn(2) == 0 {
+			names[0], names[1] = names[1], names[0]
+		}
+		if r.Intn(3) == 0 {
+			// a third name, related to the pair or not
+			third := c01Pick(r, c01Names)
+			if r.Intn(2) == 0 {
+				p2 := c01RelPairs[r.Intn(len(c01RelPairs))]
+				third = p2[r.Intn(2)]
+			}
+			if !c01NameClash(map[string]bool{names[0]: true, names[1]: true}, third) {
+				names = append(names, third)
+				r.Shuffle(len(names), func(i, j int) { names[i], names[j] = names[j], names[i] })
+			}
+		}
+		segs := []string{lit()}
+		if len(out) > 0 && r.Intn(2) == 0 {
+			segs[0] = strings.Split(out[r.Intn(len(out))], "/")[1] // share the first segment
+			if strings.Contains(segs[0], "{") {
+				segs[0] = lit()
+			}
+		}
+		compAt := -1
+		if composite {
+			compAt = r.Intn(len(names))
+		}
+		for i := 0; i < len(names); i++ {
+			switch {
+			case i == compAt && i+1 < len(names) && r.Intn(2) == 0:
+				// two related names inside one segment
+				segs = append(segs, "{"+names[i]+"}"+c01Pick(r, c01RelSeps)+"{"+names[i+1]+"}")
+				i++
+			case i == compAt:
+				segs = append(segs, "{"+names[i]+"}"+c01Pick(r, []string{".json", "-x", ".tar.gz", "_", "@v1"}))
+			default:
+				segs = append(segs, "{"+names[i]+"}")
+			}
+			if i+1 < len(names) && r.Intn(2) == 0 {
+				segs = append(segs, lit())
+			}
+		}
+		if r.Intn(3) == 0 {
+			segs = append(segs, lit())
+		}
+		t := "/" + strings.Join(segs, "/")
+		if seen[t] {
+			continue
+		}
+		seen[t] = true
+		out = append(out, t)
+		if r.Intn(3) == 0 {
+			// the same template cut after its first placeholder: a sibling that shares the prefix
+			if j := strings.Index(t, "}/"); j > 0 && !seen[t[:j+1]] {
+				seen[t[:j+1]] = true
+				out = append(out, t[:j+1])
+			}
+		}
+	}
+	return out
+}
+
+func c01GenSpecRel(r *rand.Rand) c01In {
+	composite := r.Intn(3) == 0
+	return c01SpecFrom(r, c01GenRelTemplates(r, composite), composite)
+}
+
+// strict: composite segments are only instantiated strictly (every placeholder a non-empty text free of
+// separator bytes) and the segment count of a target is never changed, so that no request of the document
+// falls under the open finding about composite segments (its classifier speaks for the whole case)
+func c01SpecFrom(r *rand.Rand, tpls []string, strict bool) c01In {
 	in := c01In{Kind: "spec", Base: Bs(c01Pick(r, c01Bases)), Via: "api"}
 	if r.Intn(2) == 0 {
 		in.Via = "routes"
 	}
-	composite := r.Intn(8) == 0
-	tpls := c01GenTemplates(r, composite)
+	inst := func(full string) string {
+		if strict {
+			return c01InstantiateStrict(r, full)
+		}
+		return c01Instantiate(r, full)
+	}
+	mutate := func(p string) (string, string) {
+		for {
+			q, how := c01MutatePath(r, p)
+			if strict && (how == "dropseg" || how == "extraseg") {
+				continue
+			}
+			return q, how
+		}
+	}
 	used := map[string]bool{} // method + shape
 	for _, t := range tpls {
 		k := 1 + r.Intn(3)
@@ -337,18 +493,18 @@ func c01GenSpec(r *rand.Rand) c01In {
 		var q c01Req
 		k := r.Intn(100)
 		switch {
-		case k < 80:
-			p := c01Instantiate(r, full)
-			p, how := c01MutatePath(r, p)
+		case k < 80 || strict && k >= 86:
+			p := inst(full)
+			p, how := mutate(p)
 			if r.Intn(3) == 0 {
 				var how2 string
-				p, how2 = c01MutatePath(r, p)
+				p, how2 = mutate(p)
 				how += "+" + how2
 			}
 			q.Target, q.Origin = Bs(p), "inst:"+how
 		case k < 86:
 			// the template without the base path, or with another base path
-			q.Target, q.Origin = Bs(c01Pick(r, []string{"", "/api", "/a/b", "/a"})+c01Instantiate(r, string(op.T))), "otherbase"
+			q.Target, q.Origin = Bs(c01Pick(r, []string{"", "/api", "/a/b", "/a"})+inst(string(op.T))), "otherbase"
 		case k < 92:
 			q.Target, q.Origin = Bs(c01Pick(r, []string{"/", "//", "/.", "/..", "/api", "/api/", "/a/b/", "/" + c01Pick(r, c01Values), "/a/" + c01Pick(r, c01Values), "/api/" + c01Pick(r, c01Lits)})), "short"
 		default:
@@ -388,6 +544,10 @@ func c01RandString(r *rand.Rand, alphabet []string, maxn int) string {
 }
 
 func (c01) Gen(r *rand.Rand, tier string, i int) any {
+	if i%8 == 3 {
+		// scheduled by case index so that every seed runs the family
+		return c01GenSpecRel(r)
+	}
 	switch k := r.Intn(100); {
 	case k < 45:
 		return c01GenSpec(r)
